@@ -109,7 +109,7 @@ class IncludeNode(ConfigNode):
                 try:
                     subbuilder.add_source(file, raw_yaml=False, safe=self.ayns.safe)
                     found = True
-                except (FileNotFoundError, NotADirectoryError): # (a regular file in place of a folder of the name: not here either)
+                except (FileNotFoundError, NotADirectoryError, IsADirectoryError): # (a regular file in place of a folder of the name, or a folder in place of the file: not here either)
                     continue
 
                 if found:
